@@ -242,6 +242,9 @@ def run_history(hist: list[tuple], record_release=None):
     for _ in range(3):  # pre-populate so that ID ranges of the two maps overlap
         vmf2.add_brush(vmf2.make_prism(Vec(0, 0, 0), Vec(8, 8, 8)).solid)
         vmf2.create_ent('info_target')
+        g2 = EntityGroup(vmf2)
+        vmf2.groups[g2.id] = g2
+        vmf2.vis_tree.append(VisGroup(vmf2, 'own'))
     objs: list = []     # [kind, obj or None, in_map]
     steps = []
     for ev in hist:
